@@ -233,6 +233,217 @@ def _check_save_and_read(ser):
         raise Unrecognised("to_dict: defaults of recurse / save_dc_types")
 
 
+
+# ---- FieldWrapper.postprocess: the whole if/elif chain, test and body of every arm ---------------------
+
+PP_TESTS = {"self.is_enum": "PtEnum", "self.is_choice": "PtChoice", "self.is_tuple": "PtTuple", "self.is_bool": "PtBool",
+            "self.is_list": "PtList", "self.is_subparser": "PtSubparser", "utils.is_optional(self.type)": "PtOptional",
+            "self.type not in utils.builtin_types": "PtNotBuiltin"}
+PP_BODIES = {
+    ("if isinstance(raw_parsed_value, str):\n    raw_parsed_value = self.type[raw_parsed_value]", "return raw_parsed_value"): "PrEnumByName",
+    ("choice_dict = self.choice_dict",
+     "if choice_dict:\n    key_type = type(next(iter(choice_dict.keys())))\n    if self.is_list and isinstance(raw_parsed_value[0], key_type):\n"
+     "        return [choice_dict[value] for value in raw_parsed_value]\n    elif isinstance(raw_parsed_value, key_type):\n"
+     "        return choice_dict[raw_parsed_value]", "return raw_parsed_value"): "PrChoice",
+    ("if raw_parsed_value is not None and (not isinstance(raw_parsed_value, tuple)):\n    return tuple(raw_parsed_value)",): "(PrTuple true)",
+    ("if not isinstance(raw_parsed_value, tuple):\n    return tuple(raw_parsed_value)",): "(PrTuple false)",
+    ("return raw_parsed_value",): "PrIdentity",
+    ("if isinstance(raw_parsed_value, tuple):\n    return list(raw_parsed_value)\nelse:\n    return raw_parsed_value",): "PrListOfTuple",
+    ("item_type = utils.get_args(self.type)[0]",
+     "if utils.is_tuple(item_type) and isinstance(raw_parsed_value, list):\n    return tuple(raw_parsed_value)"): "PrOptTuple",
+    ("try:\n    return self.type(raw_parsed_value)\nexcept Exception as e:\n    return raw_parsed_value",): "PrCallType",
+}
+
+
+def _postprocess_table(fw):
+    pp = find_def(fw, "postprocess", cls="FieldWrapper")
+    body = clean(pp.body)
+    if len(body) != 2 or not isinstance(body[0], ast.If) or _norm(body[1]) != "return raw_parsed_value":
+        raise Unrecognised(f"postprocess: expected one if/elif chain followed by `return raw_parsed_value`: {[_norm(x)[:50] for x in body]}")
+    if [a.arg for a in pp.args.args] != ["self", "raw_parsed_value"]:
+        raise Unrecognised("postprocess: signature")
+    arms, els = if_chain(body[0])
+    if els:
+        raise Unrecognised("postprocess: the chain has an else arm")
+    rows = []
+    for t, b in arms:
+        test = PP_TESTS.get(unparse(t))
+        if test is None:
+            raise Unrecognised(f"postprocess: test {unparse(t)}")
+        rule = PP_BODIES.get(tuple(_norm(x) for x in b))
+        if rule is None:
+            raise Unrecognised(f"postprocess: body of the `{unparse(t)}` arm changed: {[_norm(x) for x in b]}")
+        rows.append(f"({test}, {rule})")
+    return "[" + "; ".join(rows) + "]"
+
+
+# ---- FieldWrapper.default: the chain of sources, test and body of every arm ----------------------------
+
+D_PARENT_BODY = (
+    "def _get_value(dataclass_default: utils.Dataclass | dict, name: str) -> Any:\n    if isinstance(dataclass_default, dict):\n"
+    "        return dataclass_default.get(name)\n    return getattr(dataclass_default, name)",
+    "defaults = [_get_value(parent_default, self.field.name) for parent_default in self.parent.defaults if parent_default not in (None, argparse.SUPPRESS)]",
+)
+D_ARMS = [
+    ("DManual", "self._default is not None", [("default = self._default",), ("default = self._default", "single_value = False")]),
+    ("DSubgroup", "self.is_subgroup", [("default = self.subgroup_default",)]),
+    ("DParent", "any((parent_default not in (None, argparse.SUPPRESS) for parent_default in self.parent.defaults))",
+     [D_PARENT_BODY + ("if len(self.parent.defaults) == 1:\n    default = defaults[0]\nelse:\n    default = defaults",),
+      D_PARENT_BODY + ("if len(self.parent.defaults) == 1:\n    default = defaults[0]\nelse:\n    default = defaults\n    single_value = False",)]),
+    ("DFieldDefault", "self.field.default is not dataclasses.MISSING", [("default = self.field.default",)]),
+    ("DFactory", "self.field.default_factory is not dataclasses.MISSING",
+     [("if self._default is None:\n    self._default = self.field.default_factory()", "default = self._default"),
+      ("if self._default_factory_result is dataclasses.MISSING:\n    self._default_factory_result = self.field.default_factory()",
+       "default = self._default_factory_result")]),
+    ("DStoreTrue", "self.action == 'store_true'", [("default = False",)]),
+    ("DStoreFalse", "self.action == 'store_false'", [("default = True",)]),
+]
+
+
+def _default_chain(arms_and_else):
+    arms, els = arms_and_else
+    if [_norm(x) for x in els] != ["default = None"]:
+        raise Unrecognised(f"FieldWrapper.default: else arm {[_norm(x) for x in els]}")
+    by_test = {t: (name, bodies) for name, t, bodies in D_ARMS}
+    out = []
+    for t, b in arms:
+        k = by_test.get(unparse(t))
+        if k is None:
+            raise Unrecognised(f"FieldWrapper.default: test `{unparse(t)[:80]}`")
+        if tuple(_norm(x) for x in b) not in k[1]:
+            raise Unrecognised(f"FieldWrapper.default: body of the `{unparse(t)[:60]}` arm changed: {[_norm(x) for x in b]}")
+        out.append(k[0])
+    if len(set(out)) != len(out):
+        raise Unrecognised("FieldWrapper.default: a source occurs twice")
+    return "[" + "; ".join(out) + "]"
+
+
+# ---- DataclassWrapper.set_default, _create_dataclass_instance, config sources, nested modes -----------------
+
+DSD_TAIL = [
+    "if field_default_values is None:\n    return",
+    "unknown_names = set(field_default_values)",
+    "for field_wrapper in self.fields:\n    if field_wrapper.name not in field_default_values:\n        continue\n"
+    "    field_default_value = field_default_values[field_wrapper.name]\n    field_wrapper.set_default(field_default_value)\n"
+    "    unknown_names.remove(field_wrapper.name)",
+    "for nested_dataclass_wrapper in self._children:\n    if nested_dataclass_wrapper.name not in field_default_values:\n        continue\n"
+    "    field_default_value = field_default_values[nested_dataclass_wrapper.name]\n"
+    "    nested_dataclass_wrapper.set_default(field_default_value)\n    unknown_names.remove(nested_dataclass_wrapper.name)",
+    "unknown_names.discard('_type_')",
+    "if unknown_names:\n    raise RuntimeError(f'{sorted(unknown_names)} are not fields of {self.dataclass} at path {self.dest!r}!')",
+]
+DSD_HEAD_RECORDS = [
+    "if value is not None and (not isinstance(value, dict)):\n    field_default_values = dataclasses.asdict(value)\nelse:\n    field_default_values = value",
+    "self._default = value",
+]
+# a shape that keeps `_default` for dataclass instances only (a dict, i.e. a config file section, is not recorded)
+DSD_HEAD_INSTANCES_ONLY = [
+    "if value is None:\n    self._default = None\n    return",
+    "if isinstance(value, dict):\n    field_default_values = value\nelse:\n    self._default = value\n    field_default_values = dataclasses.asdict(value)",
+]
+
+
+def _wrapper_set_default(dw):
+    texts = _body_texts(find_def(dw, "set_default", cls="DataclassWrapper"))
+    if texts == DSD_HEAD_RECORDS + DSD_TAIL:
+        return True
+    if texts == DSD_HEAD_INSTANCES_ONLY + DSD_TAIL[1:]:
+        return False
+    raise Unrecognised(f"DataclassWrapper.set_default body changed: {texts}")
+
+
+G_TESTS = {"wrapper.optional": "GOptional", "wrapper.default is None": "GDefaultNone",
+           "all((default in (None, argparse.SUPPRESS) for default in wrapper.defaults))": "GDefaultsAllNone"}
+G_LOOP = ("for field_wrapper in wrapper.fields:\n    arg_value = constructor_args[field_wrapper.name]\n    default_value = field_wrapper.default\n"
+          "    if arg_value != default_value:\n        break\nelse:\n    return None")
+
+
+def _optional_guard(ps):
+    fn = find_def(ps, "_create_dataclass_instance")
+    body = clean(fn.body)
+    if len(body) != 2 or not isinstance(body[0], ast.If) or body[0].orelse or _norm(body[1]) != "return constructor(**constructor_args)":
+        raise Unrecognised(f"_create_dataclass_instance: body changed: {[_norm(x)[:60] for x in body]}")
+    if [_norm(x) for x in clean(body[0].body)] != [G_LOOP]:
+        raise Unrecognised(f"_create_dataclass_instance: the comparison loop changed: {[_norm(x) for x in clean(body[0].body)]}")
+    test = body[0].test
+    conj = test.values if isinstance(test, ast.BoolOp) and isinstance(test.op, ast.And) else [test]
+    out = []
+    for c in conj:
+        g = G_TESTS.get(unparse(c))
+        if g is None:
+            raise Unrecognised(f"_create_dataclass_instance: guard conjunct `{unparse(c)}`")
+        out.append(g)
+    if "GOptional" not in out:
+        raise Unrecognised("_create_dataclass_instance: the guard no longer tests wrapper.optional")
+    return "[" + "; ".join(out) + "]"
+
+
+PKA_CTOR = ("if self.config_path:\n    if isinstance(self.config_path, Path):\n        config_paths = [self.config_path]\n    else:\n"
+            "        config_paths = self.config_path\n    for config_file in config_paths:\n        self.set_defaults(config_file)")
+PKA_CLI_PREFIX = (
+    "if self.add_config_path_arg:\n    config_path_name = self.add_config_path_arg if isinstance(self.add_config_path_arg, str) else 'config_path'\n"
+    "    temp_parser = ArgumentParser(add_config_path_arg=False, add_help=False, add_option_string_dash_variants=FieldWrapper.add_dash_variants, "
+    "argument_generation_mode=FieldWrapper.argument_generation_mode, nested_mode=FieldWrapper.nested_mode)\n"
+    "    temp_parser.add_argument(f'--{config_path_name}', type=Path, nargs='*', default=self.config_path, "
+    "help='Path to a config file containing default values to use.')\n"
+    "    args_with_config_path, args = temp_parser.parse_known_args(args)\n"
+    "    config_path = getattr(args_with_config_path, config_path_name.replace('-', '_'))\n"
+    "    if config_path is not None:\n        config_paths = config_path if isinstance(config_path, list) else [config_path]\n"
+    "        for config_file in config_paths:\n            self.set_defaults(config_file)\n")
+PKA_CLI_HELP = [   # the help-only argument added afterwards (either form)
+    "    self.add_argument(f'--{config_path_name}', type=Path, default=config_path, help='Path to a config file containing default values to use.')",
+    "    if f'--{config_path_name}' not in self._option_string_actions:\n"
+    "        self.add_argument(f'--{config_path_name}', type=Path, default=config_path, help='Path to a config file containing default values to use.')",
+]
+NMODES = {"NestedMode.DEFAULT": "NmDefault", "NestedMode.WITHOUT_ROOT": "NmWithoutRoot"}
+
+
+def _nmode(node):
+    t = unparse(node)
+    return NMODES.get(t) or f"(NmOther {cstr(t)})"
+
+
+def _config_sources(ps):
+    pka = find_def(ps, "parse_known_args", cls="ArgumentParser")
+    texts = _body_texts(pka)
+    try:
+        pre = texts.index("self._preprocessing(args=args, namespace=namespace)")
+    except ValueError:
+        raise Unrecognised("parse_known_args: call of _preprocessing")
+    out = []
+    for t in texts[:pre]:
+        if t == PKA_CTOR:
+            out.append("CCtor")
+        elif any(t == PKA_CLI_PREFIX + h for h in PKA_CLI_HELP):
+            out.append("CCli")
+        elif "set_defaults" in t or "config_path" in t:
+            raise Unrecognised(f"parse_known_args: a statement handling config files changed: {t[:200]}")
+    if any(("set_defaults" in t or "read_file" in t) for t in texts[pre:]):
+        raise Unrecognised("parse_known_args: config files handled after _preprocessing")
+    # ArgumentParser.__init__: config_path is stored (a str as a Path), add_config_path_arg defaults to bool(config_path)
+    init = find_def(ps, "__init__", cls="ArgumentParser")
+    _in_order(init, ["self.nested_mode = nested_mode",
+                     "self.config_path = Path(config_path) if isinstance(config_path, str) else config_path",
+                     "if add_config_path_arg is None:\n    add_config_path_arg = bool(config_path)",
+                     "self.add_config_path_arg = add_config_path_arg"], "ArgumentParser.__init__")
+    parser_nm = _nmode(kw_defaults(init)["nested_mode"])
+    pf = find_def(ps, "parse")
+    parse_nm = _nmode(kw_defaults(pf)["nested_mode"])
+    _find_stmt(pf, "parser = ArgumentParser(nested_mode=nested_mode, add_help=True, config_path=config_path, conflict_resolution=conflict_resolution, "
+                   "add_option_string_dash_variants=add_option_string_dash_variants, argument_generation_mode=argument_generation_mode, "
+                   "formatter_class=formatter_class, add_config_path_arg=add_config_path_arg, **kwargs)", "parse()")
+    _in_order(pf, ["parser.add_arguments(config_class, prefix=prefix, dest=dest, default=default)", "parsed_args = parser.parse_args(args)",
+                   "config: Dataclass = getattr(parsed_args, dest)", "return config"], "parse()")
+    # set_defaults: the file is re-rooted under the single destination for WITHOUT_ROOT
+    sd = _body_texts(find_def(ps, "set_defaults", cls="ArgumentParser"))
+    want0 = ("if config_path:\n    defaults = read_file(config_path)\n    if self.nested_mode == NestedMode.WITHOUT_ROOT and len(self._wrappers) == 1:\n"
+             "        defaults = {self._wrappers[0].dest: defaults}\n        kwargs = {self._wrappers[0].dest: kwargs}\n"
+             "    kwargs = dict_union(defaults, kwargs)")
+    if not sd or sd[0] != want0:
+        raise Unrecognised(f"ArgumentParser.set_defaults: reading / re-rooting the file changed: {sd[:1]}")
+    return "[" + "; ".join(out) + "]", parse_nm, parser_nm, "[NmWithoutRoot]"
+
+
 # ---- field_wrapper.py / parsing.py / dataclass_wrapper.py --------------------------------------------
 
 def _field_wrapper_facts(fw):
@@ -240,28 +451,22 @@ def _field_wrapper_facts(fw):
     # the chain of sources is the if statement that starts with the test on `self._default` (old shape: the first statement;
     # new shape: preceded by `single_value = True`, a flag read only by the packaging for reused (ALWAYS_MERGE) fields)
     body = clean(dflt.body)
-    chain = [s for s in body if isinstance(s, ast.If) and unparse(s.test) == "self._default is not None"]
-    if len(chain) != 1:
-        raise Unrecognised("FieldWrapper.default: chain starting with `self._default is not None` not found exactly once")
+    chain = [s for s in body if isinstance(s, ast.If)][:1]
+    if not chain:
+        raise Unrecognised("FieldWrapper.default: no chain of sources")
     before = [unparse(s) for s in body[:body.index(chain[0])]]
     if before not in ([], ["single_value = True"]):
         raise Unrecognised(f"FieldWrapper.default: statements before the chain of sources: {before}")
-    arms, _ = if_chain(chain[0])
-    first_test = unparse(arms[0][0])
-    first_body = [unparse(s) for s in arms[0][1]]
-    if first_body not in (["default = self._default"], ["default = self._default", "single_value = False"]):
-        raise Unrecognised(f"FieldWrapper.default: first arm is `{first_test}`: {first_body}")
+    default_arms = if_chain(chain[0])
+    manual = [unparse(t) for t, _ in default_arms[0] if unparse(t) == "self._default is not None"]
+    if len(manual) != 1:
+        raise Unrecognised("FieldWrapper.default: no arm tests `self._default is not None` (None = unset)")
+    first_test = manual[0]
     # after the chain: only the packaging for reused fields (guarded by self.is_reused) and the return
     after = body[body.index(chain[0]) + 1:]
     if len(after) != 2 or not isinstance(after[0], ast.If) or unparse(after[0].test) != "self.is_reused and default is not None" \
             or after[0].orelse or unparse(after[1]) != "return default":
         raise Unrecognised(f"FieldWrapper.default: statements after the chain of sources: {[unparse(x)[:60] for x in after]}")
-    tests = [unparse(t) for t, _ in arms]
-    want = ["self._default is not None", "self.is_subgroup", None, "self.field.default is not dataclasses.MISSING",
-            "self.field.default_factory is not dataclasses.MISSING", "self.action == 'store_true'", "self.action == 'store_false'"]
-    if len(tests) != len(want) or any(w is not None and w != t for t, w in zip(tests, want)) \
-            or not tests[2].startswith("any((parent_default not in (None, argparse.SUPPRESS)"):
-        raise Unrecognised(f"FieldWrapper.default: chain of sources changed: {tests}")
     sd = _body_texts(find_def(fw, "set_default", cls="FieldWrapper"))
     if sd != ["self._default = value"]:
         raise Unrecognised(f"FieldWrapper.set_default body: {sd}")
@@ -290,31 +495,13 @@ def _field_wrapper_facts(fw):
         raise Unrecognised(f"get_arg_options: enum arm changed: {texts}")
     _find_stmt(gao, "_arg_options['default'] = self.default", "get_arg_options")
 
-    # postprocess, `self.is_tuple` arm: does it leave None alone?  (old: tuple(None) -> TypeError)
-    pp = find_def(fw, "postprocess", cls="FieldWrapper")
-    tup_arm = None
-    for n in ast.walk(pp):
-        if isinstance(n, ast.If) and unparse(n.test) == "self.is_enum":
-            arms, _ = if_chain(n)
-            for t, b in arms:
-                if unparse(t) == "self.is_tuple":
-                    tup_arm = b
-    if tup_arm is None:
-        raise Unrecognised("postprocess: `self.is_tuple` arm not found")
-    tup_texts = [_norm(s) for s in tup_arm]
-    if tup_texts == ["if not isinstance(raw_parsed_value, tuple):\n    return tuple(raw_parsed_value)"]:
-        tuple_none_guard = False
-    elif tup_texts == ["if raw_parsed_value is not None and (not isinstance(raw_parsed_value, tuple)):\n    return tuple(raw_parsed_value)"]:
-        tuple_none_guard = True
-    else:
-        raise Unrecognised(f"postprocess: tuple arm changed: {tup_texts}")
-    if _norm(clean(pp.body)[-1]) != "return raw_parsed_value":
-        raise Unrecognised("postprocess: does not end with `return raw_parsed_value`")
+    pp_table = _postprocess_table(fw)
+    dchain = _default_chain(default_arms)
 
     call = find_def(fw, "__call__", cls="FieldWrapper")
     _in_order(call, ["values = [values]", "value = self.postprocess(value)", "constructor_arguments[parent_dest][attribute] = value"],
               "FieldWrapper.__call__")
-    return enum_as_name, first_test, tuple_none_guard
+    return enum_as_name, first_test, pp_table, dchain
 
 
 def _parsing_facts(ps, dw):
@@ -323,27 +510,21 @@ def _parsing_facts(ps, dw):
              "field(parser=self, namespace=parsed_args, values=values, constructor_arguments=constructor_arguments)"]
     _in_order(fill, steps, "_fill_constructor_arguments_with_fields")
     sd = find_def(ps, "set_defaults", cls="ArgumentParser")
-    _in_order(sd, ["defaults = read_file(config_path)", "defaults = {self._wrappers[0].dest: defaults}",
-                   "kwargs = dict_union(defaults, kwargs)", "default_for_dataclass = kwargs[wrapper.dest]",
-                   "wrapper.set_default(default_for_dataclass)"], "ArgumentParser.set_defaults")
+    _in_order(sd, ["kwargs = dict_union(defaults, kwargs)", "default_for_dataclass = kwargs[wrapper.dest]",
+                   "wrapper.set_default(default_for_dataclass)", "kwargs.pop(wrapper.dest)", "super().set_defaults(**kwargs)"],
+              "ArgumentParser.set_defaults")
     pka = find_def(ps, "parse_known_args", cls="ArgumentParser")
-    calls = [s for s in _walk_stmts(pka) if unparse(s) == "self.set_defaults(config_file)"]
     pre = _find_stmt(pka, "self._preprocessing(args=args, namespace=namespace)", "parse_known_args")
-    if len(calls) != 2 or any(c.lineno >= pre.lineno for c in calls):
-        raise Unrecognised("parse_known_args: config files are not applied (twice: constructor, command line) before _preprocessing")
     post = _find_stmt(pka, "parsed_args = self._postprocessing(parsed_args)", "parse_known_args")
     if post.lineno <= pre.lineno:
         raise Unrecognised("parse_known_args: _postprocessing before _preprocessing")
-    # DataclassWrapper.set_default
-    dsd = find_def(dw, "set_default", cls="DataclassWrapper")
-    _in_order(dsd, ["field_default_values = value", "self._default = value",
-                    "field_default_value = field_default_values[field_wrapper.name]",
-                    "field_wrapper.set_default(field_default_value)",
-                    "field_default_value = field_default_values[nested_dataclass_wrapper.name]",
-                    "nested_dataclass_wrapper.set_default(field_default_value)"], "DataclassWrapper.set_default")
-    raises = [unparse(n.exc.func) for n in ast.walk(dsd) if isinstance(n, ast.Raise) and isinstance(n.exc, ast.Call)]
-    if raises != ["RuntimeError"]:
-        raise Unrecognised(f"DataclassWrapper.set_default raises {raises}")
+    # the loop of _fill_constructor_arguments_with_fields: which fields are skipped
+    loops = [n for n in ast.walk(fill) if isinstance(n, ast.For) and unparse(n.target) == "field" and unparse(n.iter) == "wrapper.fields"]
+    want_loop = ["if argparse.SUPPRESS in wrapper.defaults and field.dest not in parsed_args:\n    continue",
+                 "if field.is_subgroup:\n    continue", "if not field.field.init:\n    continue",
+                 steps[0], "deleted_values[field.dest] = values", steps[1]]
+    if len(loops) != 1 or [_norm(x) for x in clean(loops[0].body)] != want_loop:
+        raise Unrecognised(f"_fill_constructor_arguments_with_fields: per-field body changed: {[_norm(x) for x in clean(loops[0].body)] if loops else None}")
     return steps
 
 
@@ -357,8 +538,11 @@ def emit(repo: str) -> str:
     table = _encode_table(enc)
     exts = _extensions(ser)
     _check_save_and_read(ser)
-    enum_as_name, sentinel, tuple_none_guard = _field_wrapper_facts(fw)
+    enum_as_name, sentinel, pp_table, dchain = _field_wrapper_facts(fw)
     steps = _parsing_facts(ps, dw)
+    wdr = _wrapper_set_default(dw)
+    oguard = _optional_guard(ps)
+    csources, parse_nm, parser_nm, reroot = _config_sources(ps)
 
     tbl = "[" + "; ".join(f"({cstr(c)}, {r})" for c, r in table) + "]"
     ext = "[" + "; ".join(f"({cstr(s)}, {c})" for s, c in exts) + "]"
@@ -367,18 +551,29 @@ def emit(repo: str) -> str:
         f"Definition encode_table_gen : list (string * erule) := {tbl}.\n"
         f"Definition extensions_gen : list (string * codec) := {ext}.\n"
         f"Definition enum_default_as_name_gen : bool := {'true' if enum_as_name else 'false'}.\n"
-        f"Definition tuple_none_guard_gen : bool := {'true' if tuple_none_guard else 'false'}.\n"
         f"Definition default_sentinel_test_gen : string := {cstr(sentinel)}.\n"
         f"Definition fill_steps_gen : list string := {cstrs(steps + ['value = self.postprocess(value)', 'constructor_arguments[parent_dest][attribute] = value'])}.\n"
+        f"Definition postprocess_table_gen : list (pp_test * pp_rule) := {pp_table}.\n"
+        f"Definition default_chain_gen : list dsrc := {dchain}.\n"
+        f"Definition wrapper_default_recorded_gen : bool := {'true' if wdr else 'false'}.\n"
+        f"Definition optional_guard_gen : list gtest := {oguard}.\n"
+        f"Definition config_sources_gen : list csrc := {csources}.\n"
+        f"Definition parse_nested_mode_gen : nmode := {parse_nm}.\n"
+        f"Definition parser_nested_mode_gen : nmode := {parser_nm}.\n"
+        f"Definition reroot_modes_gen : list nmode := {reroot}.\n"
+        "Definition wiring_gen : wiring := mkwiring postprocess_table_gen default_chain_gen wrapper_default_recorded_gen optional_guard_gen\n"
+        "  config_sources_gen parse_nested_mode_gen parser_nested_mode_gen reroot_modes_gen.\n"
         "(* the model instantiated with the regenerated facts *)\n"
         "Definition encode_cfg_gen := encode_cfg encode_table_gen.\n"
         "Definition to_dict_gen := to_dict encode_table_gen.\n"
         "Definition file_roundtrip_gen := file_roundtrip extensions_gen.\n"
         "Definition as_argparse_default_gen := as_argparse_default enum_default_as_name_gen.\n"
         "Definition argparse_default_gen := argparse_default str2bool_gen enum_miss_cls_gen.\n"
-        "Definition finish_default_gen := finish_default str2bool_gen enum_miss_cls_gen enum_default_as_name_gen tuple_none_guard_gen.\n"
-        "Definition value_via_config_gen := value_via_config str2bool_gen enum_miss_cls_gen enum_default_as_name_gen tuple_none_guard_gen.\n"
-        "Definition load_cfg_gen := load_cfg str2bool_gen enum_miss_cls_gen enum_default_as_name_gen tuple_none_guard_gen.\n"
-        "Definition config_loop_gen := config_loop str2bool_gen enum_miss_cls_gen encode_table_gen extensions_gen enum_default_as_name_gen tuple_none_guard_gen.\n"
-        "Definition config_loop_rooted_gen := config_loop_rooted str2bool_gen enum_miss_cls_gen encode_table_gen extensions_gen enum_default_as_name_gen tuple_none_guard_gen.\n"
+        "Definition post_value_gen := post_value wiring_gen.\n"
+        "Definition field_default_gen := field_default wiring_gen.\n"
+        "Definition finish_default_gen := finish_default str2bool_gen enum_miss_cls_gen enum_default_as_name_gen wiring_gen.\n"
+        "Definition value_via_config_gen := value_via_config str2bool_gen enum_miss_cls_gen enum_default_as_name_gen wiring_gen.\n"
+        "Definition load_cfg_gen := load_cfg str2bool_gen enum_miss_cls_gen enum_default_as_name_gen wiring_gen.\n"
+        "Definition config_loop_gen := config_loop str2bool_gen enum_miss_cls_gen encode_table_gen extensions_gen enum_default_as_name_gen wiring_gen.\n"
+        "Definition config_run_gen := config_run str2bool_gen enum_miss_cls_gen encode_table_gen extensions_gen enum_default_as_name_gen wiring_gen.\n"
     )
